@@ -19,6 +19,7 @@ func init() {
 		Assumptions: trustedBase,
 		Run: func(m *Model, s *Sink) {
 			m.RunPathAPI(s, "R-PATHAPI")                                 // the custom error page is looked up under its configured name: the extension is removed as a suffix, not as a set of characters
+			m.RunErrorPageData(s, "R-RESPONSE")                          // the page's variables are bound whatever the error lacks
 			m.RunConfigSource(s, "R-RESPONSE")                           // the page chosen and the details shown follow the configuration as it is now
 			m.RunOwn(s, "R-OWN")                                         // the error page is rendered from its own program: no part of the failed page in it
 			m.RunTemplateLookup(s, "R-PATHAPI")                          // a template that does not exist is reported with the path of the file its name stands for
